@@ -49,6 +49,13 @@ def gen_plan(seed, tier):
         plan['maps'] = [{'mode': rng.choice(['serial', 'shuffled', 'reversed']), 'salt': 0}]
         plan['modes'] = ['solve', 'while']
         plan['wrapper'] = False
+    # (work bound: members x generations x calls per generation x variants -- trim the variants of the heaviest plans)
+    n_mem = expected_members(plan)
+    G_ = plan['limits'][0] if plan['limits'][0] is not None else 60
+    per_gen = 50 if plan['nested'] == 'Powell' else (plan.get('nested_np') or 2)
+    while n_mem * G_ * per_gen * len(plan['maps']) * len(plan['modes']) > 150000 and (len(plan['maps']) > 2 or len(plan['modes']) > 2):
+        if len(plan['maps']) > 2: plan['maps'] = plan['maps'][:-1]
+        else: plan['modes'] = plan['modes'][:-1]
     r3 = sub_rng(seed, 'plan.c09.degenerate')
     if plan['ensemble'] == 'Lattice' and plan.get('bounds') and r3.random() < 0.15:
         # a parameter fixed by its bounds (lower == upper): the lattice still has as many members as requested (their cells coincide
@@ -290,7 +297,8 @@ def _run(plan, run, violate, stats):
         for m_, v_ in got[1:]:
             if v_ != got[0][1]:
                 violate('member_ignores_limits', 'under map %r the members did different work in mode %s than in mode %s: (iterations, '
-                        'evaluations, limits) %r vs %r' % (ms_.get('mode'), m_, got[0][0], v_, got[0][1]), map=ms_['mode'], mode=m_)
+                        'evaluations, limits) %r vs %r' % (ms_.get('mode'), m_, got[0][0], v_, got[0][1]), map=ms_['mode'], mode=m_,
+                        limits_unset=bool(plan.get('limits') and plan['limits'][0] is None and plan['limits'][1] is None))
                 break
     if plan.get('wrapper'): wrapper(plan, run, violate, stats)
     if plan.get('generators'): generators(plan, run, violate, stats)
